@@ -148,8 +148,9 @@ def frame(buf: bytes, closed: bool, methods: list):
 # ----------------------------------------------------------------------------------------------
 # requests and behaviours
 
-BEHAVIOURS = ["ok", "ok", "ok", "fclose", "read", "http", "exc", "timeout", "none", "stream", "stream_exc", "cancel"]
-DEFECT_BEHAVIOURS = ["stream_http", "swallow"]
+BEHAVIOURS = ["ok", "ok", "ok", "fclose", "read", "http", "exc", "timeout", "none", "stream", "stream_exc", "cancel",
+              "stream_http", "swallow"]        # the last two were defects until ff054f9 / ba690df
+DEFECT_BEHAVIOURS = ["stream_other"]
 
 
 def enc_request(i, r):
@@ -183,7 +184,7 @@ BAD_ELEMENTS = [b"BAD\r\n\r\n", b"GET / HTTP/1.1\r\nContent-Length: x\r\n\r\n", 
 class Conn:
     """One real server connection under the stepping loop."""
 
-    def __init__(self, behaviours: dict, ka=KA, linger=LINGER, shadow=True):
+    def __init__(self, behaviours: dict, ka=KA, linger=LINGER, shadow=True, read_bufsize=None, honour_pause=True):
         from harness.common.loop import VLoop
         from harness.common.transport import start_server
         from aiohttp import web
@@ -208,6 +209,7 @@ class Conn:
         self.max_msgs = 0
         self.pending: list[bytes] = []
         self.ka, self.linger = ka, linger
+        self.honour_pause = honour_pause
         self.shadow_heads = 0
         self.order_log: list = []
         from aiohttp import web_protocol
@@ -258,7 +260,8 @@ class Conn:
         async def setup():
             app = web.Application(middlewares=[mw])
             app.router.add_route("*", "/{tail:.*}", fallback)
-            return await start_server(app, self.loop, keepalive_timeout=ka, lingering_time=linger)
+            kw = {} if read_bufsize is None else {"read_bufsize": read_bufsize}
+            return await start_server(app, self.loop, keepalive_timeout=ka, lingering_time=linger, **kw)
 
         self.runner, connect = self.loop.run_until_complete(setup())
         self.proto, self.tr = connect()
@@ -349,7 +352,7 @@ class Conn:
             return None, "Fr1500"
         if kind == "cancel":
             raise asyncio.CancelledError()
-        if kind in ("stream", "stream_exc", "stream_http"):
+        if kind in ("stream", "stream_exc", "stream_http", "stream_other"):
             r = web.StreamResponse(headers=hdr)
             if request.version < (1, 1):
                 r.content_length = len(text)
@@ -363,6 +366,8 @@ class Conn:
                 raise RuntimeError("scripted failure after streaming started")
             if kind == "stream_http":
                 raise web.HTTPNotFound()
+            if kind == "stream_other":
+                return web.Response(text="other"), "Fr1200"     # a fresh response object, not the one that was started
             await r.write(text[1:].encode())
             await r.write_eof()
             return r, "Fs"
@@ -449,7 +454,7 @@ class Conn:
         self.snap()
 
     def pump(self):
-        while self.pending and self.tr.reading and not self.tr.closed:
+        while self.pending and (self.tr.reading or not self.honour_pause) and not self.tr.closed:
             if self.shadow is not None and self.shadow_dead:
                 self.pending.clear()
                 break
@@ -474,6 +479,9 @@ class Conn:
         elif k == "tick":
             self.events.append("T%d" % st[1])
             self.loop.advance(float(st[1]))
+        elif k == "drain":
+            self.drain()
+            return
         elif k == "peer":
             if self.tr.closed:
                 return
@@ -518,7 +526,7 @@ class Conn:
         for _ in range(400):
             if self.gates:
                 self.stimulus(["rel"])
-            elif self.pending and self.tr.reading and not self.tr.closed:
+            elif self.pending and (self.tr.reading or not self.honour_pause) and not self.tr.closed:
                 self.pump()
             elif self.lingering():
                 self.stimulus(["tick", self.linger + 1])
@@ -599,6 +607,16 @@ def oracle(conn: Conn, expect_heads: int | None, drained: bool):
         if expect_heads is not None and conn.parse_errors == 0 and not conn.pending and conn.handled < expect_heads:
             bad.append(("orphaned", f"the peer sent {expect_heads} complete requests, only {conn.handled} reached a handler, "
                                     "nothing is running and the connection is open"))
+    # each request reaches a handler at most once
+    seen_keys = [k for k in conn.order_log if isinstance(k, int)]
+    dup = sorted({k for k in seen_keys if seen_keys.count(k) > 1})
+    if dup:
+        bad.append(("order", f"requests {dup[:5]} were handled more than once (handled order {conn.order_log[:12]}...)"))
+    # wedged: input waits in the kernel, the transport is paused, and nothing is left that could resume it
+    if drained and not closed and conn.pending and conn.honour_pause and not conn.tr.reading and not conn.gates:
+        bad.append(("wedged", f"transport reading is paused (_msg_queue_paused={conn.proto._msg_queue_paused}, "
+                              f"_reading_paused={conn.proto._reading_paused}), {len(conn.pending)} read(s) were never delivered, "
+                              f"{conn.handled} requests handled, handler running: {conn.active is not None}; nothing can resume the connection"))
     if drained and conn.parse_errors and not closed and conn.active is None:
         bad.append(("no-4xx-close", "the parser rejected the input but the connection is still open at quiescence"))
     if drained and conn.parse_errors and closed and resps:
@@ -613,12 +631,13 @@ def oracle(conn: Conn, expect_heads: int | None, drained: bool):
 # running one lts case on both sides
 
 def run_impl(case, shadow=True):
-    conn = Conn(case["beh"], ka=case.get("ka", KA), linger=case.get("linger", LINGER), shadow=shadow)
+    conn = Conn(case["beh"], ka=case.get("ka", KA), linger=case.get("linger", LINGER), shadow=shadow,
+                read_bufsize=case.get("read_bufsize"), honour_pause=not case.get("nopause", False))
     try:
         for st in case["steps"]:
             conn.stimulus(st)
         conn.drain()
-        bad = oracle(conn, conn.shadow_heads if shadow else None, drained=True)
+        bad = oracle(conn, conn.shadow_heads if shadow else case.get("nreq"), drained=True)
         ran = sorted({conn.beh.get(str(k), {}).get("kind", "ok") for k in conn.order_log})
         return {"events": list(conn.events), "snaps": list(conn.snaps), "bad": bad, "ran_kinds": ran,
                 "complete": sum(1 for r in conn.wire()[0] if r["done"]), "closed": conn.tr.closed,
@@ -743,6 +762,7 @@ def gen_case(rng, allow_defects=True, depth=None):
         if b["kind"] == "swallow":
             r["ver"] = "1.0"
             r["conn"] = "keep-alive"
+            r["method"] = "GET"
         if plain and i == 0 and rng.random() < 0.8:
             b["block"] = True
         if b != {"kind": "ok"}:
@@ -947,6 +967,117 @@ def hostile_usable(case):
     return not (b"upgrade" in data or b"connect " in data or b"expect" in data)
 
 
+UPG = "Connection: Upgrade\r\nUpgrade: websocket\r\n"
+
+
+def _plain(i, upgrade=False):
+    return (f"GET /r/{i} HTTP/1.1\r\nHost: x\r\n" + (UPG if upgrade else "") + "\r\n").encode()
+
+
+def gen_upgrade_case(rng, fixed=None):
+    """Declined Upgrade requests with ordinary requests pipelined behind them (buffered in _message_tail and re-fed by
+    finish_response), several upgrades per connection, reads cut anywhere or at request boundaries."""
+    if fixed is not None:
+        reads_spec = fixed
+    else:
+        reads_spec = []
+        for _ in range(rng.randint(1, 4)):
+            k = rng.choice([1, 1, 2, 3, 4, 6])
+            reads_spec.append([rng.random() < 0.45 for _ in range(k)])
+    beh, reads, i = {}, [], 0
+    for spec in reads_spec:
+        data = b""
+        for up in spec:
+            data += _plain(i, up)
+            r = rng.random()
+            if r < 0.15:
+                beh[str(i)] = {"kind": "ok", "block": True}
+            elif r < 0.3:
+                beh[str(i)] = {"kind": "http"}
+            i += 1
+        reads.append(data)
+    steps = []
+    for d in reads:
+        for c in (cut(rng, d, 3) if fixed is None and rng.random() < 0.4 else [d]):
+            steps.append(["data", c.hex()])
+            if rng.random() < 0.5:
+                steps.append(["rel"])
+        steps.append(["drain"])          # everything sent so far is answered before the next read arrives
+    return {"suite": "upgrade", "beh": beh, "steps": steps, "ka": KA, "linger": LINGER, "nreq": i}
+
+
+def gen_pause_case(rng, fixed=None):
+    """Both reasons for pausing the transport: the pipeline queue (32 parsed requests) and the body reader's high-water
+    mark (2 x read_bufsize), with a transport that delivers nothing while paused -- or (nopause) one that cannot pause."""
+    bufsize = 1024
+    if fixed is not None:
+        n_gets, first, total, after, nopause, kind = fixed
+    else:
+        n_gets = rng.choice([0, 3, 15, 16, 30, 31, 31, 31, 32, 33, 40])
+        total = rng.choice([500, 3000, 5000, 9000])
+        first = min(total - 1, rng.choice([0, 100, 2047, 2048, 2049, 2500, 4000]))
+        after = rng.choice([0, 1, 3, 35])
+        nopause = rng.random() < 0.15
+        kind = rng.choice(["read", "read", "ok", "stream"])
+    beh = {str(n_gets): {"kind": kind}}
+    if rng.random() < 0.5:
+        beh["0"] = dict(beh.get("0", {"kind": "ok"}), block=True)
+    head = (f"POST /r/{n_gets} HTTP/1.1\r\nHost: x\r\nContent-Length: {total}\r\n\r\n").encode()
+    body = b"b" * total
+    read1 = b"".join(_plain(i) for i in range(n_gets)) + head + body[:first]
+    steps = [["data", read1.hex()]]
+    rest = body[first:]
+    for c in cut(rng, rest, 2):
+        steps.append(["data", c.hex()])
+    for j in range(after):
+        steps.append(["data", _plain(n_gets + 1 + j).hex()])
+    if rng.random() < 0.5:
+        steps.insert(rng.randint(1, len(steps)), ["rel"])
+    return {"suite": "pause", "beh": beh, "steps": steps, "ka": KA, "linger": LINGER, "nreq": n_gets + 1 + after,
+            "read_bufsize": bufsize, "nopause": nopause}
+
+
+def special_fixed_cases(rng):
+    out = [gen_upgrade_case(rng, fixed=f) for f in (
+        [[True, False, False], [True]], [[True, False], [False], [True]], [[True, False, False], [True, False]],
+        [[False, True, False, False], [True], [False]], [[True], [True]], [[True, True, False], [True]])]
+    for f in ((31, 2500, 5000, 1, False, "read"), (31, 100, 5000, 1, False, "read"), (3, 2500, 5000, 1, False, "read"),
+              (31, 4000, 9000, 3, False, "ok"), (32, 2500, 5000, 2, False, "read"), (30, 2049, 5000, 35, False, "read"),
+              (0, 0, 500, 0, True, "read")):
+        out.append(gen_pause_case(rng, fixed=f))
+    # a transport that cannot pause: a burst that fills the queue behind a blocked handler, then one request per read
+    steps = [["data", b"".join(_plain(i) for i in range(33)).hex()]] + [["data", _plain(i).hex()] for i in range(33, 75)] + [["rel"]]
+    out.append({"suite": "pause", "beh": {"0": {"kind": "ok", "block": True}}, "steps": steps, "ka": KA, "linger": LINGER,
+                "nreq": 75, "nopause": True})
+    return out
+
+
+def suite_special(ctx):
+    """Oracle-only: mechanisms outside the Coq model (declined Upgrade + _message_tail; the two pause reasons; a
+    transport without read flow control)."""
+    rng = ctx.rng
+    cpath = os.path.join(fw.VERIF, "corpus", "C05")
+    cases = []
+    for name in sorted(os.listdir(cpath)) if os.path.isdir(cpath) else []:
+        payload = json.load(open(os.path.join(cpath, name)))
+        c = payload.get("case", payload)
+        if c.get("suite") in ("upgrade", "pause"):
+            cases.append(c)
+    cases += special_fixed_cases(rng)
+    n = 150 if ctx.quick else 3000
+    for k in range(n):
+        cases.append(gen_upgrade_case(rng) if k % 2 == 0 else gen_pause_case(rng))
+    for c in cases:
+        r = run_impl(c, shadow=False)
+        ctx.case((c["suite"], tuple(r["snaps"])), nontrivial=r["complete"] > 0)
+        ctx.count("special:" + c["suite"] + (":nopause" if c.get("nopause") else ""))
+        if any("paused=1" in s for s in r["snaps"]):
+            ctx.count("special:queue-paused")
+        report(ctx, c, r)
+    ctx.sample({"suite": cases[-1]["suite"], "steps": [s if s[0] != "data" else ["data", s[1][:60] + "..."] for s in cases[-1]["steps"][:4]]})
+    ctx.close_suite("special-oracle", len(cases))
+
+
 def suite_hostile(ctx):
     rng = ctx.rng
     n = 500 if ctx.quick else 12000
@@ -988,6 +1119,7 @@ def run(ctx):
             ctx.oblige("correspondence:constants", "correspondence", consts == want, f"model {consts} / implementation {want}")
         suite_lts(ctx, exe)
         suite_hostile(ctx)
+        suite_special(ctx)
     finally:
         logging.disable(logging.NOTSET)
 
@@ -996,18 +1128,12 @@ def run(ctx):
 # known findings
 
 def _sig_stream_then_other_response(case, params):
-    """handler started a streamed response and then raised HTTPException: a second head inside the first body"""
-    return case.get("vkind") in ("malformed-wire", "order", "incomplete-open", "unanswered-open") and "stream_http" in case.get("ran_kinds", [])
-
-
-def _sig_swallowed_prepare(case, params):
-    """handler swallowed the RuntimeError of a failed prepare() and returned that response: nothing written, connection kept"""
-    return case.get("vkind") in ("unanswered-open", "order") and "swallow" in case.get("ran_kinds", [])
+    """handler started a streamed response and then RETURNED a different fresh response: a second head inside the first body"""
+    return case.get("vkind") in ("malformed-wire", "order", "incomplete-open", "unanswered-open") and "stream_other" in case.get("ran_kinds", [])
 
 
 SIGNATURES = {
-    "stream_then_http_exception": _sig_stream_then_other_response,
-    "swallowed_prepare_error": _sig_swallowed_prepare,
+    "stream_then_other_response": _sig_stream_then_other_response,
 }
 
 
